@@ -23,7 +23,9 @@ from harness.vlib import coq_str, coq_z
 # field spec: {"name", "meta": str|None, "ann": None | [("alias", s) | ("other",)], "cfg": str|None,
 #              "dflt": bool, "ty": "int"|"any"}
 # class spec: {"fields": [...], "allow": bool, "forbid": bool, "discr": None | ("field", s) | ("nofield",),
-#              "mixin": bool}
+#              "mixin": bool,
+#              "noninit": [{"name", "meta", "cfg"}]   members declared field(init=False): from_dict does not read them
+#              "classvar": [name]}                     ClassVar members: not fields at all
 
 DEFAULT = -1          # default value of defaulted fields; never used as an input value
 NAMES = ["x", "y", "z"]
@@ -31,7 +33,14 @@ TAG = "k"
 
 
 def cfg_aliases(spec) -> dict:
-    return {f["name"]: f["cfg"] for f in spec["fields"] if f["cfg"] is not None}
+    out = {f["name"]: f["cfg"] for f in spec["fields"] if f["cfg"] is not None}
+    out.update({f["name"]: f["cfg"] for f in spec.get("noninit", []) if f["cfg"] is not None})
+    return out
+
+
+def member_names(spec) -> list:
+    return ([f["name"] for f in spec["fields"]] + [f["name"] for f in spec.get("noninit", [])]
+            + list(spec.get("classvar", [])))
 
 
 def class_source(spec) -> str:
@@ -58,7 +67,7 @@ def class_source(spec) -> str:
     L.append(f"class K({base}):" if base else "class K:")
     if spec["discr"] is not None and spec["discr"][0] == "field":
         fld = spec["discr"][1]
-        if fld.isidentifier() and not keyword.iskeyword(fld) and fld not in [f["name"] for f in spec["fields"]]:
+        if fld.isidentifier() and not keyword.iskeyword(fld) and fld not in member_names(spec):
             L.append(f"    {fld}: ClassVar[str] = {TAG!r}")
     # fields without default first (dataclass rule)
     for f in spec["fields"]:
@@ -78,6 +87,11 @@ def class_source(spec) -> str:
             args.append(f"metadata={md!r}")
         rhs = f" = field({', '.join(args)})" if args else ""
         L.append(f"    {f['name']}: {ty}{rhs}")
+    for f in spec.get("noninit", []):
+        md = f", metadata={{'alias': {f['meta']!r}}}" if f["meta"] is not None else ""
+        L.append(f"    {f['name']}: int = field(init=False, default=0{md})")
+    for n in spec.get("classvar", []):
+        L.append(f"    {n}: ClassVar[int] = 3")
     L.append("    class Config(BaseConfig):")
     L.append(f"        aliases = {cfg_aliases(spec)!r}")
     L.append(f"        allow_deserialization_not_by_alias = {spec['allow']!r}")
@@ -168,7 +182,7 @@ def tag_dispatch_ok(spec) -> bool:
     if spec["discr"] is None or spec["discr"][0] != "field":
         return False
     fld = spec["discr"][1]
-    if not (fld.isidentifier() and not keyword.iskeyword(fld)) or fld in [f["name"] for f in spec["fields"]]:
+    if not (fld.isidentifier() and not keyword.iskeyword(fld)) or fld in member_names(spec):
         return False
     return all(fld not in o_candidates(spec, f) and fld != (o_alias(spec, f) or "") for f in spec["fields"])
 
@@ -199,7 +213,8 @@ def o_accepted(spec):
     acc = set()
     for f in spec["fields"]:
         acc.update(o_candidates(spec, f))
-    if spec["discr"] is not None and spec["discr"][0] == "field":
+    # a Discriminator whose field is None or "" is one without field everywhere in the library: no key to accept
+    if spec["discr"] is not None and spec["discr"][0] == "field" and spec["discr"][1] != "":
         acc.add(spec["discr"][1])
     return acc
 
@@ -222,58 +237,6 @@ def o_keymodel(spec, d: dict):
     return ("inst", vals)
 
 
-def finding_kind(spec, d, obs, exp):
-    """Precise predicate of the listed finding; None = not attributable to a listed finding."""
-    # an empty-string alias is treated as "no alias" by `alias or fname`, but as an alias by `alias is not None`
-    emp = [f for f in spec["fields"] if o_alias(spec, f) == ""]
-    if emp:
-        # the difference must disappear when the empty aliases are read the way the code reads them
-        if o_keymodel_empty_alias_as_code(spec, d) == obs:
-            return "empty-alias"
-    return None
-
-
-def o_keymodel_empty_alias_as_code(spec, d):
-    """The reading of the code for empty aliases only: primary key `alias or name`; with
-    allow_deserialization_not_by_alias the lookup still tries '' first; '' is never accepted."""
-    def cands(f):
-        a = o_alias(spec, f)
-        if a is None:
-            return [f["name"]]
-        if spec["allow"]:
-            return [a, f["name"]]
-        return [a or f["name"]]
-    acc = set()
-    for f in spec["fields"]:
-        a = o_alias(spec, f)
-        acc.add(a or f["name"])
-        if spec["allow"]:
-            acc.add(f["name"])
-    if spec["discr"] is not None and spec["discr"][0] == "field":
-        acc.add(spec["discr"][1])
-    extra = [k for k in d if k not in acc]
-    if spec["forbid"] and extra:
-        return ("extra", extra)
-    vals = []
-    for f in spec["fields"]:
-        got = None
-        for k in cands(f):
-            if k in d:
-                got = (k, d[k])
-                break
-        if got is None and not f["dflt"]:
-            return ("missing", f["name"])
-        vals.append((f["name"], got))
-    return ("inst", vals)
-
-
-def in_domain(spec) -> bool:
-    """Domain of the theorem C09_keys (mirrors KeyProofs.in_domain; cross-checked inside Coq per case)."""
-    if any(o_alias(spec, f) == "" for f in spec["fields"]):
-        return False
-    return True
-
-
 # ---------------------------------------------------------------------------
 # generation
 # ---------------------------------------------------------------------------
@@ -288,7 +251,7 @@ def gen_spec(rng, force=None):
     discr = None
     r = rng.random()
     if r < 0.30:
-        discr = ("field", rng.choice(["kind", "kind", "type", "y", "None"]))
+        discr = ("field", rng.choice(["kind", "kind", "kind", "type", "type", "y", "y", "None", "None", "w", ""]))
     elif r < 0.36:
         discr = ("nofield",)
     fields = []
@@ -326,8 +289,16 @@ def gen_spec(rng, force=None):
     k = rng.randrange(nf + 1) if nf else 0
     for f in fields[nf - k:] if k else []:
         f["dflt"] = True
+    # members that are not read by from_dict: field(init=False) (possibly with aliases of their own) and ClassVar
+    noninit, classvar = [], []
+    if rng.random() < 0.45:
+        for n in rng.sample(["w", "v"], rng.choice([1, 1, 2])):
+            noninit.append({"name": n, "meta": rng.choice([None, None, f"m_{n}", "s1"]),
+                            "cfg": rng.choice([None, None, f"c_{n}", "s2"])})
+    if rng.random() < 0.2:
+        classvar.append("u")
     spec = {"fields": fields, "allow": rng.random() < 0.5, "forbid": rng.random() < 0.5, "discr": discr,
-            "mixin": rng.random() < 0.6}
+            "mixin": rng.random() < 0.6, "noninit": noninit, "classvar": classvar}
     spec.update({k: v for k, v in force.items() if k in ("allow", "forbid", "mixin")})
     return spec
 
@@ -352,8 +323,13 @@ def candidate_keys(spec, rng, limit=8):
     rng.shuffle(strangers)
     rng.shuffle(opt)
     out = list(must)[:limit]
-    # always at least one stranger, then the remaining alias strings, then more strangers
-    rest = strangers[:1] + opt + strangers[1:]
+    dead = [f["name"] for f in spec.get("noninit", [])] + list(spec.get("classvar", []))
+    dead_al = [a for f in spec.get("noninit", []) for a in (f["meta"], f["cfg"]) if a is not None]
+    dead = [k for i, k in enumerate(dead + dead_al) if k not in must and k not in (dead + dead_al)[:i]]
+    opt = [k for k in opt if k not in dead]
+    strangers = [k for k in strangers if k not in dead]
+    # names (and aliases) of members from_dict does not read, one stranger, the losing alias strings, more strangers
+    rest = dead[:2] + strangers[:1] + dead[2:] + opt + strangers[1:]
     for k in rest:
         if len(out) >= limit:
             break
@@ -526,13 +502,9 @@ def kernel_validation(ctx, rng):
 # the check
 # ---------------------------------------------------------------------------
 
-THEOREMS = ["K4_precedence", "K4_key_plan", "K4_allowed_keys", "C09_impl_is_code", "C09_keys_partial",
-            "C09_keys_refuted_empty_alias", "C09_field_key", "C09_outcome",
-            "C09_alias_wins", "C09_fallback", "C09_accepted_covers_reads", "C09_reads_allowed_partial",
-            "C09_reads_allowed_refuted", "C09_extra_members", "C09_extra_exact", "C09_ignored",
-            "C09_forbidden_reported"]
-
-KNOWN_KINDS = ("empty-alias",)
+THEOREMS = ["K4_precedence", "K4_key_plan", "K4_allowed_keys", "C09_impl_is_code", "C09_keys",
+            "C09_field_key", "C09_outcome", "C09_alias_wins", "C09_fallback", "C09_accepted_covers_reads",
+            "C09_reads_allowed", "C09_extra_members", "C09_extra_exact", "C09_ignored", "C09_forbidden_reported"]
 
 
 def jsonable_key(k):
@@ -556,8 +528,9 @@ def run(ctx: vlib.Ctx):
         "class = 0..3 fields, each with any of the three alias sources (metadata / Annotated Alias list incl. several "
         "Alias and non-Alias items / Config.aliases; alias strings fresh, shadowing another field's name, shared, own name, "
         "'None', 'alias', the discriminator field, '' and non-identifier strings) x allow_deserialization_not_by_alias x "
-        "forbid_extra_keys x inherited Config discriminator (with/without field) x mixin/plain; input = subset of <= 8 "
-        "candidate keys (names, winning and losing aliases, discriminator field, strangers incl. 'None', 'alias', '', None, 1), "
+        "forbid_extra_keys x inherited Config discriminator (with/without field) x mixin/plain x optional init=False members "
+        "(with aliases of their own) and ClassVar members; input = subset of <= 8 candidate keys (names, winning and losing "
+        "aliases, names/aliases of the members that are not read, discriminator field, strangers incl. 'None', 'alias', '', None, 1), "
         "every key bound to a distinct int; thorough: all subsets. distinct = (class spec, key subset)")
     ctx.trusted += [
         "tools/kernels/k4_alias.py: slicer that recognises the emitted `X = d.get(<key>, MISSING)` lines / `if X is MISSING:` "
@@ -572,8 +545,8 @@ def run(ctx: vlib.Ctx):
         "string x (C16)",
     ]
     ctx.assumptions += [
-        "C09_keys_partial: no field's resolved alias is the empty string (listed finding C09/empty-alias, refuted in Coq); "
-        "the discriminator field name is not the empty string (never generated)",
+        "C09_keys has no domain restriction; a Discriminator whose field is '' counts as one without field (as everywhere "
+        "in the library)",
         "alias values are strings (Alias(None) / aliases={..: None} are outside the property's quantifier)",
         "input keys are hashable scalars (str / None / int); values are irrelevant to key resolution (distinct ints used)",
     ]
@@ -632,13 +605,14 @@ def run(ctx: vlib.Ctx):
             drop_module(mod)
             continue
         keys = candidate_keys(spec, rng)
-        dom = in_domain(spec)
         ctx.hist("alias_sources", "|".join(
             "".join(t for t, on in (("m", f["meta"] is not None), ("a", bool(f["ann"]) and any(x[0] == "alias" for x in f["ann"])),
                                     ("c", f["cfg"] is not None)) if on) or "-" for f in spec["fields"]) or "(no fields)")
         ctx.hist("options", f"allow={int(spec['allow'])} forbid={int(spec['forbid'])} "
                             f"discr={'-' if spec['discr'] is None else spec['discr'][0]} {'mixin' if spec['mixin'] else 'plain'}")
-        ctx.hist("domain", "in" if dom else "out(listed finding empty-alias)")
+        ctx.hist("empty_alias", "some field's resolved alias is ''" if any(o_alias(spec, f) == "" for f in spec["fields"])
+                 else "none")
+        ctx.hist("non_init_members", f"init=False:{len(spec['noninit'])} ClassVar:{len(spec['classvar'])}")
         coq_defs.append(f"Definition c{ci} : cls := {c_spec(spec)}.")
         for ks in subsets(keys, rng, sub_max):
             d = make_dict(ks, keys, rng)
@@ -656,38 +630,33 @@ def run(ctx: vlib.Ctx):
                     ctx.count((ci, tuple(map(repr, ks)), ename))
                     ctx.hist("outcome", obs[0] + " (via Base)")
                     if obs != exp:
-                        kind = finding_kind(spec, d, obs, exp)
                         n_mismatch_oracle += 1
                         ctx.fail(f"{ename}({dd!r}) -> {obs!r}, KEYMODEL says {exp!r}",
                                  replay_of(spec, src, ename, dd, obs, exp),
-                                 {"kind": kind or "key-resolution", "observed": obs[0], "expected": exp[0]})
+                                 {"kind": "key-resolution", "observed": obs[0], "expected": exp[0]})
                     continue
                 obs = observe(spec, call, d)
                 obs_all.append(obs)
                 ctx.count((ci, tuple(map(repr, ks)), ename))
                 ctx.hist("outcome", obs[0])
                 if obs != exp:
-                    kind = finding_kind(spec, d, obs, exp)
                     n_mismatch_oracle += 1
-                    sig = {"kind": kind or "key-resolution", "observed": obs[0], "expected": exp[0]}
+                    sig = {"kind": "key-resolution", "observed": obs[0], "expected": exp[0]}
                     ctx.fail(f"{ename}({d!r}) -> {obs!r}, KEYMODEL says {exp!r}",
                              replay_of(spec, src, ename, d, obs, exp), sig)
             # all entry points agree? (if not, the oracle has already flagged at least one of them)
             obs0 = obs_all[0]
-            coq_cases.append((ci, coq_defs[-1], f"(c{ci}, {c_dict(d)}, {c_outcome(obs0)}, {vlib.coq_bool(dom)})"))
+            coq_cases.append((ci, coq_defs[-1], f"(c{ci}, {c_dict(d)}, {c_outcome(obs0)}, true)"))
             cases.append((spec, src, ents[0][0], d, obs0))
             if len(ctx.coverage["samples"]) < 6 and len(ks) >= 2 and rng.random() < 0.02:
                 ctx.sample({"class": src, "input": repr(d), "observed": repr(obs0)})
         drop_module(mod)
 
     # ---- correspondence: Coq models vs the real implementation, same cases
-    ok_impl = ("fun c => match c with (cl, d, o, dom) => "
-               "res_outcome_eqb (impl_from_dict cl d) o && Bool.eqb (in_domain cl) dom end")
-    ok_ref = ("fun c => match c with (cl, d, o, dom) => "
-              "if in_domain cl then outcome_eqb (keymodel cl d) o else true end")
-    ok_both = ("fun c => match c with (cl, d, o, dom) => "
-               "res_outcome_eqb (impl_from_dict cl d) o && Bool.eqb (in_domain cl) dom && "
-               "(if in_domain cl then outcome_eqb (keymodel cl d) o else true) end")
+    ok_impl = "fun c => match c with (cl, d, o, _) => res_outcome_eqb (impl_from_dict cl d) o end"
+    ok_ref = "fun c => match c with (cl, d, o, _) => outcome_eqb (keymodel cl d) o end"
+    ok_both = ("fun c => match c with (cl, d, o, _) => "
+               "res_outcome_eqb (impl_from_dict cl d) o && outcome_eqb (keymodel cl d) o end")
     IMPL = ("KeyModel KeyImpl PyK_alias", "From VerifGen Require Import K4.", ["theories/KeyImpl.vo"])
     REF = ("KeyModel", "", ["theories/KeyModel.vo"])
 
@@ -705,7 +674,7 @@ def run(ctx: vlib.Ctx):
             ctx.not_shown("correspondence " + name, det)
 
     n = len(coq_cases)
-    n_dom = sum(1 for c in cases if in_domain(c[0]))     # the reference is compared inside the domain only
+    n_dom = n
     n_impl, n_ref = "impl-model(K4)-vs-from_dict", "keymodel(reference)-vs-from_dict"
     if k4_ok:
         bad, log = coq_check("c09_both", IMPL, coq_cases, ok_both, ctx)
@@ -745,6 +714,8 @@ def replay(rep: dict) -> int:
             f["ann"] = [tuple(a) for a in f["ann"]]
     if spec["discr"] is not None:
         spec["discr"] = tuple(spec["discr"])
+    spec.setdefault("noninit", [])
+    spec.setdefault("classvar", [])
     try:
         mod = build_class(rep["source"])
     except Exception as e:
